@@ -5,10 +5,10 @@ package main
 
 import (
 	"context"
-	"runtime"
 	"encoding/hex"
 	"encoding/json"
 	"fmt"
+	"runtime"
 	"strconv"
 	"strings"
 	"time"
